@@ -26,7 +26,7 @@ def apen(sequence, m=1, r=0):
     if type(sequence) is str:
         U = np.array([int(x) for x in sequence])
     elif type(sequence) is list:
-        U = np.array(sequence)
+        U = list(sequence)
     elif type(sequence) is np.ndarray:
         U = sequence.tolist()
     else:
